@@ -342,6 +342,7 @@ func init() {
 		Gen: func(r *RNG, tier string, run int) *Trace {
 			pg := defaultPGen()
 			pg.plan = planOpts{chunk: true, faults: r.Chance(0.3)}
+			pg.flagBits = 0.03
 			pg.aliasReset = true
 			if r.Chance(0.06) {
 				pg.trickle = 0.85
